@@ -17,6 +17,7 @@
 #include <kernel/util/exception.hpp>
 #include <kernel/util/xml_scanner.hpp>
 
+#include <algorithm>
 #include <dirent.h>
 #include <fstream>
 #include <iostream>
@@ -250,7 +251,7 @@ namespace
       int nops = 1 + int(sim::cfg_weighted("fault_ops", {5, 2, 1}));
       for(int k = 0; k < nops; ++k)
       {
-        int kind = int(sim::cfg_weighted(("fault_kind" + std::to_string(k)).c_str(), {4, 2, 1, 1, 3, 3, 3, 2, 2, 2, 2, 3, 2, 3}));
+        int kind = int(sim::cfg_weighted(("fault_kind" + std::to_string(k)).c_str(), {4, 2, 1, 1, 3, 3, 3, 2, 2, 2, 2, 3, 2, 3, 2}));
         int bias = int(sim::cfg_int(("fault_bias" + std::to_string(k)).c_str(), 0, 1));
         switch(kind)
         {
@@ -268,6 +269,7 @@ namespace
         case 11: drop_element(bf, log); break;
         case 12: dup_element(bf, log); break;
         case 13: attr_change(bf, log); break;
+        case 14: close_element(bf, log); break;
         }
       }
       size_t eof_limit = size_t(-1);
@@ -488,6 +490,40 @@ namespace
       b.assign(s.begin(), s.end());
       log.ops += "ATTR_CHANGE(" + name + (op == 12 ? ",dropped" : op == 13 ? ",doubled" : std::string(",'") + vals[op] + "'") + ") ";
       sim::count_fault("ATTR_CHANGE");
+    }
+
+    // an element loses its content and terminator and becomes a closed markup <x ... /> (what remains when the extent
+    // after the opening tag is lost and a repair tool closes the tag). A block that declares records (a counted block
+    // with data lines, a <Patch size="k"> with k > 0) contradicts its count then.
+    static void close_element(Bytes& b, simfs::FaultLog& log)
+    {
+      auto ls = lines_of(b);
+      std::vector<El> els = scan_elements(b, ls);
+      if(els.empty()) return;
+      // elements with records of their own (not those that merely contain other elements)
+      std::vector<size_t> with_data;
+      for(size_t i = 0; i < els.size(); ++i)
+      {
+        bool data = false, child = false;
+        for(size_t j = els[i].open + 1; j < els[i].close; ++j) { std::string u = trimmed(b, ls[j]); if(u.empty()) continue; if(u[0] == '<') child = true; else data = true; }
+        if(data && !child) with_data.push_back(i);
+      }
+      const bool aim = !with_data.empty() && simfs::pick(3, "close_element_aim") != 0;
+      const size_t ei = aim ? with_data[simfs::pick(with_data.size(), "close_element")] : simfs::pick(els.size(), "close_element");
+      const El& e = els[ei];
+      std::string open = trimmed(b, ls[e.open]);
+      if(open.size() < 2 || open.back() != '>') return;
+      open.insert(open.size() - 1, " /");
+      const size_t beg = ls[e.open].beg;
+      const size_t end = ls[e.close].end < b.size() ? ls[e.close].end + 1 : ls[e.close].end;
+      const bool had_records = std::find(with_data.begin(), with_data.end(), ei) != with_data.end();
+      b.erase(b.begin() + long(beg), b.begin() + long(end));
+      open += "\n";
+      b.insert(b.begin() + long(beg), open.begin(), open.end());
+      log.ops += "CLOSE_ELEMENT(" + e.name + "@line" + std::to_string(e.open) + ") ";
+      const bool counted = (e.name == "Vertices" || e.name == "Topology" || e.name == "Mapping" || e.name == "Attribute" || e.name == "Patch" || e.name == "Points" || e.name == "Params" || e.name == "Triangles");
+      if(had_records && counted) { log.must_reject = true; log.why += "a <" + e.name + "> block that declares records became a closed markup without any; "; }
+      sim::count_fault("CLOSE_ELEMENT");
     }
 
     // write one whole child element twice (a replayed extent)
